@@ -18,7 +18,8 @@ RULE = ('cases = well-formed chart instrumented with data-only probes (contracts
         'and copy.deepcopy, the restored interpreter fed the remaining ops must produce exactly '
         'the reference suffix (steps, contexts, condition evaluations incl. __old__, history '
         'restorations, delayed events becoming due; in half of the cases the external events carry '
-        'a list that the consuming transitions read and extend in place) and so must the original continued after the '
+        'a list that the consuming transitions read and extend in place; in a quarter one source '
+        'text serves both as executed code and as a guard) and so must the original continued after the '
         'snapshot. Non-trivial = snapshot taken while a state with an __old__-reading '
         'postcondition/invariant is active, a history memory is set, or a delayed event is '
         'pending; distinct = sha1(chart, history, b, method).')
@@ -45,7 +46,10 @@ def strategy(tier):
         # payload: external events carry a list that the consuming transitions read and extend
         return {'spec': spec, 'ops': ops, 'bs': bs,
                 'counter': draw(st.sampled_from(['v', 'n'])),
-                'payload': draw(st.booleans())}
+                'payload': draw(st.booleans()),
+                # shared_text: one source text is used both as executed code (actions, entry
+                # code) and as evaluated code (guards)
+                'shared_text': draw(st.integers(0, 3)) == 0}
     return cases()
 
 
@@ -102,6 +106,17 @@ def oracle(case):
         for t in spec['transitions']:
             if t.get('event'):
                 t['action'] = (t.get('action') or 'pass') + '\n' + BAG
+    if case.get('shared_text'):
+        S = "(glog.append('S') or True)"
+        for k, t in enumerate(spec['transitions']):
+            if k % 3 == 0:
+                t['guard'] = S
+            elif k % 3 == 1:
+                t['action'] = S
+        for k, x in enumerate(spec['states']):
+            if k % 3 == 2 and x['kind'] not in ('shallow', 'deep'):
+                x['on_exit'] = S
+        labels['runs where one text is both executed and evaluated'] = 1
     d0 = fresh(spec)
     ref = []
     steps_before = []     # number of step signatures produced before op index b
